@@ -2056,6 +2056,8 @@ struct Gen {
     {
         // a text, so that both executions hold the identical floats
         const std::string &base = g_t.cmn0[tmpl];
+        if (r.chance(0.2)) // the short documented form: the values not listed are zero, whatever the decoder did before
+            return r.chance(0.5) ? "40,3,-1" : "55,-2";
         if (r.chance(0.5) || base.empty())
             return base.empty() ? "40,0,0,0,0,0,0,0,0,0,0,0,0" : base;
         std::string t;
